@@ -1,6 +1,7 @@
 (* EdKAT.v — known-answer tests of the EXECUTABLE instance (Model/EdInst.v) against three of the EdLaws, by kernel
    computation.  These are finite instances only (each scalar multiplication costs 25-40 s under vm_compute); they
-   do not prove EdLaws for the instance.  Kept out of the dependency cone of Props/*.v. *)
+   do not prove EdLaws for the instance.  `kat_ell_G` is reused by Proofs/EdInstLaws.v (law smul_ell_G of the instance),
+   so this file is in the dependency cone of Props/C13.v. *)
 From MRS Require Import Model.EdInst.
 Open Scope Z_scope.
 
